@@ -172,6 +172,18 @@ def _observations(c, i):
             ms, tok = _marks(tok)
             obs.append((list(range(len(recs))), recs, set(acked), list(acked), ms))
         return obs
+    if c[0] == "c10.stop":
+        nt = int(c[1])
+        n = int(c[2 + nt])
+        recs, rest = _recs(c[3 + nt:], n, 0)
+        fin = [int(x) for x in rest[1:1 + int(rest[0])]]
+        if not i or not i[0].isdigit() or int(i[0]) != n:
+            return None
+        tok = i[1 + 2 * n:]
+        if tok[0] != "0":
+            return None
+        ms, tok = _marks(tok[1:])
+        return [(list(range(len(recs))), recs, set(fin), list(fin), ms)]
     if c[0] == "c10.pipe":
         n = int(c[5])
         recs, _ = _recs(c[6:], n, 1)
@@ -242,7 +254,7 @@ def c10_nontrivial(c, i):
         return len(i) > 1 and i[0].isdigit() and int(i[0]) >= 1
     if c[0] == "c10.pipe":
         return "ack" in i
-    if c[0] == "c10.start":
+    if c[0] in ("c10.start", "c10.stop"):
         return len(i) > 1 and i[0].isdigit() and int(i[0]) >= 1
     return False
 
@@ -263,6 +275,13 @@ def c10_classify(c, i):
         out.append("start:" + ("duplicate-topics" if len(set(names)) < nt else "distinct-topics"))
         out.append("start:distinct-names=" + str(len(set(names))))
         if i and not i[0].isdigit(): out.append("start:" + i[0])
+    elif c[0] == "c10.stop":
+        nt = int(c[1])
+        n = int(c[2 + nt])
+        nf = int(c[3 + nt + 4 * n])
+        out.append("stop:finished=" + ("none" if nf == 0 else "all" if nf == n else "some"))
+        out.append("stop:records=" + ("1" if n == 1 else "2-4" if n <= 4 else "5+"))
+        if i and not i[0].isdigit(): out.append("stop:" + i[0].split(":")[0])
     elif c[0] == "c10.pipe":
         out.append("pipe:procs=" + c[1])
         out.append("pipe:" + ("async" if c[2] == "1" else "sync"))
@@ -279,7 +298,7 @@ def c10_classify(c, i):
 CFG = {
     "manifest": {
         "text": "Proof: Lean theorems (Props/C10.lean). pack_roundtrip is proved, kernel-only over BitVec, about definitions regenerated from kafka.go's AST on every run (go2lean): unpacking a packed (topic index < 2^48, partition < 2^16, offset < 2^47, epoch < 2^16) gives the record's own topic/partition/epoch and offset+1. On a transition system of the spread pipeline (records -> streams -> output -> Commit -> max-keeping marks) every mark is an acknowledged record's own (mark_at_most_one_past_consumed), and no mark passes an unfinished record when acknowledgements are in consumption order per partition / with one processor and an in-order output (mark_never_passes_unfinished_partial). start_commit_own_topic: for every configured topic list, duplicates included, the id Start assigns resolves in Commit to the record's own topic. The full statement is false of the code: MarkNeverPassesUnfinished_counterexample (two records, two processors), recorded as known finding C10-spread-reorder and reproduced on the real pipeline.",
-        "note": "Trusted: Lean kernel + standard axioms; fdmodel compilation; go2lean (cross-checked against the real functions on every run); harness; franz-go keeps the maximum mark and (AutoCommitMarks) commits marks only; the broker delivers a partition in increasing offset order. The client is offline: what is observed is the marked head, not a broker-side commit.",
+        "note": "Trusted: Lean kernel + standard axioms; fdmodel compilation; go2lean (cross-checked against the real functions on every run); harness; franz-go keeps the maximum mark and (AutoCommitMarks) commits marks only; the broker delivers a partition in increasing offset order. c10.stop observes the OffsetCommit requests of the real Stop on the harness' own minimal in-process group broker (one member, no rebalance); the other commands observe the client's marked head.",
         "technique": "Lean 4 proof (BitVec algebra on regenerated definitions + inductive invariant over op lists) + differential correspondence: real packing functions, real Plugin.Commit on an offline kgo client, real pipeline in spread mode with a scheduled output",
     },
     "props_modules": ["FileD.Props.C10"],
@@ -293,12 +312,12 @@ CFG = {
     "classify": c10_classify,
     "signatures": {"c10_spread_reorder": c10_spread_reorder},
     "trace": True,
-    "rule": "c10.pack: boundary grid of (index, partition, offset, epoch) in and around the packing ranges plus random values of random bit length and full-range values; c10.marks: every commit order of every subset of 1..4 (thorough 5) records of one partition, then random record sets over 1-4 partitions committed in consumption order / with adjacent swaps / shuffled, plus records outside the packing range; c10.start: the real Plugin.Start against an in-process fake broker (ApiVersions + Metadata), real Assigned callback, real consume loops, real Commit: every topic list over three names up to length 4 (thorough 5), duplicates included, one record per configured name, then random lists / record sets; c10.pipe: real pipeline, 1/2/4 processors, pool capacity 1-6, sync or queueing output, random discard flags, release order from the PRNG. distinct = distinct case line; non-trivial = in-range packing input / at least one commit observed",
+    "rule": "c10.pack: boundary grid of (index, partition, offset, epoch) in and around the packing ranges plus random values of random bit length and full-range values; c10.marks: every commit order of every subset of 1..4 (thorough 5) records of one partition, then random record sets over 1-4 partitions committed in consumption order / with adjacent swaps / shuffled, plus records outside the packing range; c10.start: the real Plugin.Start against an in-process fake broker (ApiVersions + Metadata), real Assigned callback, real consume loops, real Commit: every topic list over three names up to length 4 (thorough 5), duplicates included, one record per configured name, then random lists / record sets; c10.stop: the real plugin end to end against an in-process broker speaking the consumer-group protocol (join, sync, fetch, offset commit, leave): records are fetched by the real poll loop, a prefix / subset / all / none of them is acknowledged through Commit, then the real Plugin.Stop runs; observed = the committed offsets the broker holds (every prefix of 1..4 (6) records of one partition, every subset up to 3, random sets over several topics and partitions); c10.pipe: real pipeline, 1/2/4 processors, pool capacity 1-6, sync or queueing output, random discard flags, release order from the PRNG. distinct = distinct case line; non-trivial = in-range packing input / at least one commit observed",
     "corr_name": "Gen.KafkaPack defs = real packing functions; KafkaCommit.commitPacked / step? = Plugin.Commit + kgo marks / observed pipeline trace; topicID / commitStarted = Start's topic ids + Commit's Topics[index]",
     "trusted_base": [
         "go2lean (Go AST -> Lean translator); its output is compared with the real functions on every run (c10.pack)",
         "franz-go: MarkCommitOffsets keeps the maximum w.r.t. EpochOffset.Less, MarkedOffsets returns the heads, with AutoCommitMarks only marked heads are committed (exercised offline, not proved)",
-        "offline kgo.Client: the marked head is observed; the OffsetCommit request to a broker is not",
+        "c10.marks / c10.pipe / c10.start observe the marked head of the client; the OffsetCommit requests are observed by c10.stop only, against the harness' own minimal broker (one member, no rebalance while running, autocommit interval 1h so that the commits are Stop's)",
         "GOARCH is 64 bit (int = int64)",
     ],
     "assumptions": [
